@@ -215,7 +215,16 @@ def cvc_alt_key(row):
         if row["mask"] and date_region(row["orig"], row["pos"]) and row["cert"][row["pos"] - 1] > 9 and row["rc0"] == "OK":
             return DATE_KEY
         return "cvcAlt:L=%d:pos=%d:rc0=%s:rck=%s" % (row["L"], row["pos"], row["rc0"], row["rck"])
-    return "bpki:%s:%s:%s:klen=%d:rc=%s" % (row.get("op"), row.get("kind"), row.get("cls"), len(row.get("key", [])), row.get("rc"))
+    reg = ""
+    if row.get("cls") == "altered" and row.get("pos"):
+        o = row.get("orig", [])
+        # where the altered octet lies: salt (after 04 08), iteration count (02 02 after the salt), ciphertext (the last OCTET STRING), skeleton
+        i = next((j for j in range(len(o) - 10) if o[j] == 4 and o[j + 1] == 8 and o[j + 10] == 2), -1)
+        pos = row["pos"] - 1
+        ed = len(o) - (len(row.get("key", [])) + 16 + 30)
+        reg = ":" + ("salt" if i >= 0 and i + 2 <= pos < i + 10 else "iter" if i >= 0 and i + 12 <= pos < i + 12 + o[i + 11] else "ciphertext" if pos >= ed else "skeleton")
+        reg += ":%s" % ("lowered" if reg == ":iter" and row["epki"][pos] < o[pos] else "mask=%02x" % row.get("mask", 0)) if reg == ":iter" else ""
+    return "bpki:%s:%s:%s%s:klen=%d:rc=%s" % (row.get("op"), row.get("kind"), row.get("cls"), reg, len(row.get("key", [])), row.get("rc"))
 
 
 # ------------------------------------------------------------------ CV certificates: replay of TLC's cases
@@ -375,7 +384,8 @@ def run(ctx):
         "smalt": lambda: rec(drv_asan, ["sm_alter", tier], "sm_alter.ndjson"),
         "dialog": lambda: rec(drv_asan, ["sm_record", 60 if ctx.quick else 1500, 14], "sm_record.ndjson"),
         "cvcalt": lambda: rec(drv, ["cvc_alter", tier], "cvc_alter.ndjson"),
-        "bpki": lambda: rec(drv, ["bpki", tier], "bpki.ndjson", timeout=3000),
+        # 7 containers (4 private-key lengths, 3 share lengths), one process each: every octet x 5..6 alterations
+        "bpki": lambda: sum(vlib.parallel([(lambda k=k: rec(drv, ["bpki", tier, k], "bpki_%d.ndjson" % k, timeout=3000)) for k in range(7)], n=7), []),
     }
     names = list(jobs)
     got = dict(zip(names, vlib.parallel([jobs[k] for k in names], n=5)))
